@@ -117,6 +117,7 @@ struct nni_pipe {
 	nni_dialer        *p_dialer;
 	nni_listener      *p_listener;
 	nni_atomic_bool    p_closed;
+	nni_atomic_bool    p_starting; // nni_pipe_start is running
 	nni_atomic_flag    p_stop;
 	nni_reap_node      p_reap;
 	nni_refcnt         p_refcnt;
